@@ -101,6 +101,14 @@ func padding(rng *rand.Rand) chunk {
 		"const vpad_%d = \"s\"",
 		"func vpad_%d() {\n}",
 		"var (\n\tvpad_%d int\n)",
+		"func vpad_%d(a, b float64) bool {\n\treturn a > b && a < b+1\n}",
+		"func vpad_%d(a, b int) bool {\n\treturn !(a == b) || a > 1\n}",
+		"var vpad_%d = 1 > 0 || 2 > 1",
+		"var vpad_%d = 1.5 > 0.5 && 2.5 > 1.5",
+		"func vpad_%d(xs []int) int {\n\tfor _, x := range xs {\n\t\tif x > 0 {\n\t\t\treturn x\n\t\t}\n\t}\n\treturn 0\n}",
+		"func vpad_%d(s string, f float64) bool {\n\tif len(s) == 0 || f != f {\n\t\treturn true\n\t}\n\tswitch {\n\tcase f > 1:\n\t\treturn false\n\t}\n\treturn !(f < 2)\n}",
+		"type vpad_%d interface {\n\tM(a, b int) (int, error)\n}",
+		"// vpad comment\nfunc vpad_%d(p *struct{ a [4]int }) int {\n\t// x := 1\n\treturn (*p).a[0]\n}",
 	}
 	s := fmt.Sprintf(forms[rng.Intn(len(forms))], padN)
 	return chunk{lines: append([]string{""}, strings.Split(s, "\n")...), pad: true}
@@ -181,6 +189,7 @@ func cmdC13(args []string) {
 	seed := fs.Int64("seed", 1, "")
 	outPath := fs.String("out", "", "")
 	sub := fs.String("sub", "v", "sub directory of the scratch module this worker writes to")
+	genPats := fs.String("genpats", "", "file with package dirs (relative to -ws) analysed in expectation-free mode")
 	fs.Parse(args)
 	core.Init()
 	out := core.NewOut(*outPath)
@@ -236,6 +245,45 @@ func cmdC13(args []string) {
 			}
 			vars = append(vars, variant{ex, r, mode, dir})
 			pats = append(pats, "./"+filepath.ToSlash(filepath.Join(*sub, fmt.Sprintf("r%d", r), ex)))
+		}
+	}
+	// expectation-free packages (generated / scenario): the identity round is the baseline
+	type gvariant struct {
+		pat   string
+		round int
+		mode  int
+		dir   string
+	}
+	var gvars []gvariant
+	if *genPats != "" {
+		for _, gp := range core.ReadLines(*genPats) {
+			files, _ := filepath.Glob(filepath.Join(*ws, gp, "*.go"))
+			for r := 0; r < *rounds; r++ {
+				mode := 0
+				if r > 0 {
+					mode = modes[1+(r-1)%4]
+					if r > 4 {
+						mode = 1 + rng.Intn(7)
+					}
+				}
+				dir := filepath.Join(*ws, *sub, fmt.Sprintf("g%d", r), filepath.Base(filepath.Dir(gp))+"_"+filepath.Base(gp))
+				os.MkdirAll(dir, 0o755)
+				for _, f := range files {
+					b, err := os.ReadFile(f)
+					if err != nil {
+						continue
+					}
+					s := string(b)
+					// the identity round also goes through split/join so chunk identities are computed the same way
+					if t, ok := transform(s, mode, rng); ok && mode != 0 {
+						s = t
+					}
+					os.WriteFile(filepath.Join(dir, filepath.Base(f)), []byte(s), 0o644)
+				}
+				gvars = append(gvars, gvariant{gp, r, mode, dir})
+				rel, _ := filepath.Rel(*ws, dir)
+				pats = append(pats, "./"+filepath.ToSlash(rel))
+			}
 		}
 	}
 	pkgs, _, err := core.Load(*ws, pats, nil)
@@ -381,6 +429,134 @@ func cmdC13(args []string) {
 		if sampled < 2 && len(mm) == 0 {
 			sampled++
 			out.Emit(core.Sample{Kind: "sample", Sample: map[string]interface{}{"example": v.example, "transformation": fmt.Sprintf("T%d", v.mode), "variant_dir": v.dir, "result": "all expectations met, nothing new"}})
+		}
+	}
+	// ---- expectation-free mode: per-chunk diagnostics must be invariant -------------------
+	if len(gvars) > 0 {
+		infosAll := core.Infos()
+		var anyPkg *core.Pkg
+		for _, p := range byDir {
+			anyPkg = p
+			break
+		}
+		if anyPkg != nil {
+			gctx := linter.NewContext(anyPkg.Fset, nil)
+			gset := newSet(gctx, infosAll)
+			// chunkDiags: multiset of (chunk text hash, relative line, col, checker, text) outside padding
+			chunkDiags := func(v gvariant) (map[string]int, bool) {
+				p := byDir[v.dir]
+				if p == nil || p.NErrors != 0 {
+					return nil, false
+				}
+				res := map[string]int{}
+				gctx.SizesInfo = p.Sizes
+				gctx.SetPackageInfo(p.Info, p.Types)
+				for i, f := range p.Files {
+					b, _ := os.ReadFile(p.Paths[i])
+					header, chunks, _, ok := split(string(b))
+					if !ok {
+						continue
+					}
+					// line -> (chunk key, start line)
+					type ck struct {
+						key   string
+						start int
+						pad   bool
+					}
+					var owners []ck
+					line := len(header)
+					seenKey := map[string]int{}
+					for _, c := range chunks {
+						txt := strings.TrimSpace(strings.Join(c.lines, "\n"))
+						isPad := strings.Contains(txt, "vpad_") || txt == ""
+						h := core.Hash(txt)
+						seenKey[h]++
+						key := fmt.Sprintf("%s#%d", h, seenKey[h])
+						// the chunk's own first non-blank line anchors relative positions
+						first := 0
+						for first < len(c.lines) && strings.TrimSpace(c.lines[first]) == "" {
+							first++
+						}
+						for k := range c.lines {
+							owners = append(owners, ck{key, line + first + 1, isPad})
+							_ = k
+						}
+						line += len(c.lines)
+					}
+					gctx.SetFileInfo(filepath.Base(p.Paths[i]), f)
+					for _, c := range gset {
+						if order[c.Info.Name] && v.mode&4 != 0 {
+							continue
+						}
+						ws, pi := core.SafeCheck(c, f)
+						if pi != nil {
+							continue
+						}
+						for _, w := range ws {
+							pos := p.Fset.Position(w.Pos)
+							idx := pos.Line - len(header) - 1
+							if idx < 0 {
+								res[fmt.Sprintf("hdr|%d|%d|%s|%s", pos.Line, pos.Column, c.Info.Name, w.Text)]++
+								continue
+							}
+							if idx >= len(owners) {
+								cnt.Add("diagnostics_in_file_tail_not_counted", 1)
+								continue
+							}
+							o := owners[idx]
+							if o.pad {
+								cnt.Add("diagnostics_inside_padding_not_counted", 1)
+								continue
+							}
+							cnt.Add("diagnostics_checked", 1)
+							res[fmt.Sprintf("%s|%d|%d|%s|%s", o.key, pos.Line-o.start, pos.Column, c.Info.Name, w.Text)]++
+						}
+					}
+				}
+				return res, true
+			}
+			base := map[string]map[string]int{}
+			sort.SliceStable(gvars, func(i, j int) bool { return gvars[i].round < gvars[j].round })
+			for _, v := range gvars {
+				d, ok := chunkDiags(v)
+				if !ok {
+					if v.round == 0 {
+						cnt.Put("gen_controls_not_well_typed", v.pat)
+					} else {
+						cnt.Add("variants_discarded_not_well_typed", 1)
+					}
+					continue
+				}
+				if v.round == 0 {
+					base[v.pat] = d
+					cnt.Put("gen_controls_ok", v.pat)
+					continue
+				}
+				b0, ok := base[v.pat]
+				if !ok {
+					continue
+				}
+				cnt.Add("variants_checked", 1)
+				cnt.Add("gen_variants_checked", 1)
+				cnt.Put("transform_modes", fmt.Sprintf("T%d", v.mode))
+				for k, n := range b0 {
+					if d[k] != n {
+						parts := strings.SplitN(k, "|", 5)
+						if order[parts[3]] && v.mode&4 != 0 {
+							continue // exempt: file-level order is this checker's subject and T4 changes it
+						}
+						out.Emit(core.V("C13", "locality-generic:"+parts[3]+":lost", fmt.Sprintf("%s: after T%d the diagnostic %q of %s (declaration-relative %s:%s) is reported %d time(s) instead of %d", v.pat, v.mode, parts[4], parts[3], parts[1], parts[2], d[k], n),
+							map[string]interface{}{"package": v.pat, "mode": v.mode, "round": v.round, "dir": v.dir, "checker": parts[3], "text": parts[4]}))
+					}
+				}
+				for k, n := range d {
+					if _, ok := b0[k]; !ok {
+						parts := strings.SplitN(k, "|", 5)
+						out.Emit(core.V("C13", "locality-generic:"+parts[3]+":new", fmt.Sprintf("%s: after T%d a new diagnostic %q of %s appears (%d)", v.pat, v.mode, parts[4], parts[3], n),
+							map[string]interface{}{"package": v.pat, "mode": v.mode, "round": v.round, "dir": v.dir, "checker": parts[3], "text": parts[4]}))
+					}
+				}
+			}
 		}
 	}
 	out.Emit(cnt.Stat())
